@@ -163,9 +163,14 @@ pub fn run(ctx: &mut Ctx) {
     let mut x = Case::new("oneshot-invalid");
     let mx = if ctx.thorough() { 4000 } else { 500 };
     for _ in 0..mx {
-        let (k, r) = (ctx.rng.range(0, 5), ctx.rng.range(0, 5));
+        let (mut k, mut r) = (ctx.rng.range(0, 5), ctx.rng.range(0, 5));
+        // one call in eight: a count far outside the envelope, up to usize::MAX (both of them half of those times)
+        if ctx.rng.chance(1, 8) {
+            let big: [usize; 6] = [usize::MAX, usize::MAX - 1, usize::MAX / 2 + 1, 1 << 60, 1 << 59, 65537];
+            match ctx.rng.below(4) { 0 => k = *ctx.rng.pick(&big), 1 => r = *ctx.rng.pick(&big), _ => { k = *ctx.rng.pick(&big); r = *ctx.rng.pick(&big); } }
+        }
         let sb = *ctx.rng.pick(&[0usize, 1, 2, 4, 6, 7]);
-        let n_o = ctx.rng.below(k + 3);
+        let n_o = ctx.rng.below(k.min(5) + 3);
         let shards: Vec<String> = (0..n_o)
             .map(|_| {
                 let l = if ctx.rng.chance(1, 5) { *ctx.rng.pick(&[0usize, 1, 2, 4, 6]) } else { sb };
@@ -186,10 +191,10 @@ pub fn run(ctx: &mut Ctx) {
                 .collect::<Vec<_>>()
                 .join(",")
         };
-        let no = ctx.rng.below(k + 2);
-        let nr = ctx.rng.below(r + 2);
-        let o = mk(&mut ctx.rng, no, k);
-        let rc = mk(&mut ctx.rng, nr, r);
+        let no = ctx.rng.below(k.min(5) + 2);
+        let nr = ctx.rng.below(r.min(5) + 2);
+        let o = mk(&mut ctx.rng, no, k.min(70000));
+        let rc = mk(&mut ctx.rng, nr, r.min(70000));
         x.push(format!("X decode {} {} {} {}", k, r, o, rc));
     }
     cases.push(x);
